@@ -110,7 +110,7 @@ class Labels:
         out = set()
         for a in t[2]:
             out |= self.of(a)
-        for _, v in t[3]:
+        for _, v in (t[3] if len(t) > 3 else ()):
             out |= self.of(v)
         return out
 
@@ -203,8 +203,11 @@ class Labels:
                 return {"fs-content"}
             if name in ("is_file", "is_dir", "exists", "startswith", "endswith", "isdigit"):
                 return set()
-            if name in ("resolve", "absolute"):
+            if name == "resolve":
                 return {("norm-path" if a == "raw-path" else a) for a in recv}
+            if name == "absolute":
+                # Path.absolute() prefixes the working directory but keeps '..' components: still the caller's spelling
+                return recv
             return recv | args
         if k == "attr":
             base = self.of(t[1])
@@ -436,6 +439,9 @@ def run(ctx):
     pt = PointsTo(ctx.prog, ctx.res, ctx.cg)
     flow = Flow(ctx.prog, ctx.res, stop_funcs=[init], hook=recovery_hook(ctx, init))
     flow.expr_hook = recovery_expr_hook(ctx, init)
+    # a shared helper (merkle_root, the hashers) is also called by the reading commands: only the creating contexts say
+    # what a metafile is made of
+    flow.caller_filter = lambda f_: f_.module.name not in ("torrentfile.recheck", "torrentfile.rebuild", "torrentfile.edit")
     lab = Labels(ctx, init)
     # the meta dictionary created by MetaFile.__init__
     roots = set()
